@@ -144,6 +144,9 @@ type VC struct {
 	usedLemmas        []string
 	places            *framePlaces
 	tableFacts        int
+	callCount         map[string]int
+	assertsSeen       int
+	assertHit         map[string]bool
 	foldedCases       int
 	tableEpoch        int
 }
@@ -242,7 +245,7 @@ func (vc *VC) oblige(kind string, st *State, cond *Term, pos token.Pos, desc str
 	vc.obls = append(vc.obls, o)
 	// after checking, a safety condition may be assumed for the rest of the path (the failure is reported once,
 	// at its first point); end-of-path obligations (post, frame, invariant preservation) are not assumed
-	if strings.HasPrefix(kind, "safety") || kind == "pre" || kind == "inv-init" {
+	if strings.HasPrefix(kind, "safety") || kind == "pre" || kind == "inv-init" || kind == "assert" {
 		vc.assume(st.guard, cond)
 	}
 	return o
